@@ -61,3 +61,15 @@ Definition run_interp (c : interp_case) : list (option float) :=
   concat (interp_block F64 (if meth =? 0 then block_nn F64 else block_bil F64) D ys xs [idx]).
 Definition chk_interp (c : interp_case) : bool :=
   let '(_, _, _, e) := c in list_eqb cmp_val (run_interp c) e.
+
+(* np.gradient: the four gradient arrays of a traced call are np_gradient1 of its coordinate arrays (sources of >= 2x2 pixels) *)
+Definition chk_fields (c : search_case) : bool :=
+  let '(dims, arrs, _, _, _) := c in
+  let '(nl, np, _, _) := dims in
+  let '(sx, sy, xl, xp, yl, yp) := arrs in
+  let G := fields_of_coords F64 nl np (getf sx np) (getf sy np) in
+  let idx := flat_map (fun l => map (fun p => (l, p)) (zrange 0 np)) (zrange 0 nl) in
+  forallb (fun lp => let '(l, p) := lp in
+             same_bits (f_xl G l p) (getf xl np l p) && same_bits (f_xp G l p) (getf xp np l p) &&
+             same_bits (f_yl G l p) (getf yl np l p) && same_bits (f_yp G l p) (getf yp np l p)) idx.
+Definition chk_indices_traced (c : search_case) : bool := chk_indices c && chk_fields c.
